@@ -57,7 +57,7 @@ def fully_heralded_case(draw):
     prog, _ = gen.limit_loss(prog, 2)
     return {"prog": prog, "inputs": [[]], "ps": None, "expected": [[[]]],
             "use_expected": draw(st.booleans()), "single_expected": draw(st.booleans()),
-            "pc": True, "exp_perm": [0]}
+            "pc": draw(st.booleans()), "exp_perm": [0]}
 
 
 @st.composite
@@ -192,8 +192,7 @@ def run_story(case):
             for i, ref in enumerate(refs):
                 exp_i = case["expected"][i][:1] if case["single_expected"] else case["expected"][i]
                 e = 1.0
-                for o in exp_i:
-                    o = tuple(o)
+                for o in sorted({tuple(x) for x in exp_i}):     # the expected outputs form a set
                     if o in accepted:
                         e -= ref.get(full_state(o, hout, n), 0.0) / acc_tot[i]
                 errs.append(e)
